@@ -245,12 +245,19 @@ def _int(n):
     return r
 
 
+BIG_ROOTS = ["eml", "dataset", "dataset", "dataTable", "project", "methods", "coverage", "creator", "contact", "attributeList",
+             "attribute", "otherEntity", "access", "taxonomicCoverage", "spatialRaster", "additionalMetadata", "distribution",
+             "physical", "keywordSet", "geographicCoverage", "dataSource", "citation", "methodStep"]
+
+
 @st.composite
 def valid_spec(draw, element=None, max_nodes=60, max_depth=6, elements=None, avoid=()):
     T = tables()
     if element is None:
         pool = elements or sorted(e for e in T.known if T.cost[e] < INF)
-        element = draw(st.sampled_from(pool))
+        big = [e for e in BIG_ROOTS if e in pool]
+        # most of the ~700 elements are leaves: half of the roots are containers with a rich content model
+        element = draw(st.sampled_from(big)) if big and not elements and draw(st.booleans()) else draw(st.sampled_from(pool))
     size = [0]
 
     def gen(e, depth):
